@@ -129,7 +129,7 @@ def align8(x):
     return x if x % 8 == 0 else x + 8 - x % 8
 
 
-ALL_ASPECTS = {"store.result", "store.offset", "ids.has", "ids.del", "ids.hash", "addrs.asof", "addrs.find",
+ALL_ASPECTS = {"store.result", "store.errclass", "store.offset", "ids.has", "ids.del", "ids.hash", "addrs.asof", "addrs.find",
                "stats.main", "stats.tags", "stats.del", "stats.bytes", "offs", "extra", "query", "remove", "vanish",
                "reopen", "rebuild", "noop-on-failure", "reopen-preserves", "rebuild-preserves", "rebuild-compact"}
 
@@ -172,8 +172,12 @@ def judge_history(line, model_out, impl_out, aspects, gcls=""):
             icls = iseg.split(" ")[0]
             outcomes.add("store:" + icls)
             if "store.result" in aspects:
-                if icls != sseg:
+                # accepted vs refused must agree with the abstract store; WHICH refusal is compared only
+                # where the property names it (aspect store.errclass: C09 'replaced', C11 'deleted')
+                if (icls == "ok") != (sseg == "ok"):
                     return fail("store-result", "implementation %s, abstract store %s" % (icls, sseg), n)
+                if "store.errclass" in aspects and icls != sseg:
+                    return fail("store-refusal-kind", "implementation %s, abstract store %s" % (icls, sseg), n)
             if icls == "ok":
                 m = re.match(r"ok (\d+) h=(\w+)", iseg)
                 off, h = int(m.group(1)), m.group(2)
